@@ -860,6 +860,10 @@ func (db *DB) Close(ctx context.Context) (err error) {
 	db.f = nil
 	db.opened = false
 	db.rtx = nil
+	// Sync tracking describes the WAL as this open session last saw it. The
+	// application may write, checkpoint or truncate the WAL while the DB is
+	// closed, so a later Open() of the same object must not trust it.
+	db.syncState = syncState{}
 	db.mu.Unlock()
 
 	if sqlDB != nil {
